@@ -65,7 +65,8 @@ class SeqTheory:
             FA([s, n], Imp(And(0 <= n, n <= Len(s)), Len(Drop(s, n)) == Len(s) - n), patterns=[Drop(s, n)]),
             FA([s, n, j], Imp(And(0 <= n, 0 <= j, j < Len(s) - n), At(Drop(s, n), j) == At(s, j + n)), patterns=[At(Drop(s, n), j)]),
             FA([s], Take(s, 0) == Empty, patterns=[Take(s, 0)]),
-            FA([s, n], Imp(And(0 < n, n <= Len(s)), Take(s, n) == Build(Take(s, n - 1), At(s, n - 1))), patterns=[Take(s, n)]),
+            # (no general "Take(s,n) = Build(Take(s,n-1), s[n-1])" axiom: it is a matching loop; the engine adds the instance for the
+            #  iterated sequence at each loop head instead)
             FA([s], Drop(s, 0) == s, patterns=[Drop(s, 0)]),
             FA([s], Take(s, Len(s)) == s, patterns=[Take(s, Len(s))]),
             FA([s], App(s, Empty) == s, patterns=[App(s, Empty)]),
